@@ -46,6 +46,11 @@ DRAWPARTICLES_CTOR_ATTACHES = True
 SIG_DRAWPARTICLES = "C13:exogenous-model-ignored:DrawParticles-two-argument-ctor"
 
 
+def _w(c, name):
+    """word operand, [] when absent (an empty word is not written: the shared case reader drops empty word lines)"""
+    return list(c.get(name)) if c.has(name) else []
+
+
 def alphabet(bogus="bogus"):
     return ["%s:%s" % (n, s) for n in NAMES + [bogus] for s in ("on", "off")]
 
@@ -81,14 +86,18 @@ def word_case(rng, cid, kind, exo, cmds, interleave):
             ops += rng.choice([[], ["predict"], ["correct"], ["predict", "correct"], ["correct", "predict"]])
     if interleave != "all":
         ops += ["predict", "correct"]
-    c.word("ops", ops)
+    if ops:
+        c.word("ops", ops)
     return c
 
 
 def enum_case(rng, cid, kind, exo, prefix, ext):
     c = caseio.Case(cid, kind, {"exo": int(exo), "mode": "enum", "len": len(prefix) + ext})
     operands(rng, c, kind)
-    c.word("alphabet", alphabet()).word("prefix", prefix).int("ext", ext)
+    c.word("alphabet", alphabet())
+    if prefix:
+        c.word("prefix", prefix)
+    c.int("ext", ext)
     return c
 
 
@@ -144,8 +153,8 @@ def generate(rng, tier):
 
 def nontrivial(c):
     if c.meta["mode"] == "enum":
-        return (c.kind, c.meta["exo"], "enum", " ".join(c.get("prefix")), c.meta["len"])
-    cmds = [o for o in c.get("ops") if ":" in o]
+        return (c.kind, c.meta["exo"], "enum", " ".join(_w(c, "prefix")), c.meta["len"])
+    cmds = [o for o in _w(c, "ops") if ":" in o]
     if len(cmds) >= 2 and any(o.endswith(":on") for o in cmds):
         return (c.kind, c.meta["exo"], " ".join(cmds))
     return None
@@ -190,7 +199,7 @@ def compare(c, impl, model):
         return ["%s: %d tokens from the implementation, %d from the model" % (key, len(a), len(b))]
     d = []
     if key == "trace":
-        ops = ["<init>"] + list(c.get("ops"))
+        ops = ["<init>"] + list(_w(c, "ops"))
         for i, (x, y) in enumerate(zip(a, b)):
             if x != norm_model_token(y, exo):
                 d.append("op %d (%s): impl=%s model=%s" % (i, ops[i], x, y))
@@ -208,7 +217,7 @@ def compare(c, impl, model):
 
 
 def enum_words(c):
-    A, prefix, ext = c.get("alphabet"), list(c.get("prefix")), c.get("ext")
+    A, prefix, ext = c.get("alphabet"), list(_w(c, "prefix")), c.get("ext")
     a = len(A)
 
     def word(i):
@@ -273,7 +282,7 @@ def check_enum(c, tokens, cfg, exo):
     """The clauses on a packed enumeration. The rule state is carried along the lexicographic order of the words
     (depth-first over the word tree), so a word costs O(1); a word whose token differs from what the rule
     determines is re-examined by check_word to name the violated clause."""
-    A, prefix, ext = c.get("alphabet"), list(c.get("prefix")), c.get("ext")
+    A, prefix, ext = c.get("alphabet"), list(_w(c, "prefix")), c.get("ext")
     parsed = []
     for x in A:
         name, s_ = x.rsplit(":", 1)
@@ -330,7 +339,7 @@ def oracle(c, impl, model):
     if impl.get("inputs_unchanged") != 1:
         v.append(("C13:input-modified:%s" % cfg, "a belief passed to predict()/correct() was modified"))
     if c.meta["mode"] == "word":
-        ops, tr = list(c.get("ops")), impl.get("trace")
+        ops, tr = list(_w(c, "ops")), impl.get("trace")
         if tr is None or len(tr) != len(ops) + 1:
             return v + [("C13:harness-trace-length", "trace has %s tokens for %d operations" % (None if tr is None else len(tr), len(ops)))]
         cmds, answers, flag_seq, steps = [], [], [parse_flags(tr[0])], []
